@@ -64,8 +64,16 @@ THEOREMS = [
      "announced (hd_headers (st_head s)) = None /\\ assoc s_connection (hd_headers (st_head s)) = Some (B \"close\") /\\ "
      "parse_closing (map (fun h => q_method (h_q h)) (hs ++ [h])) (written (map Some (ss ++ [s]))) = Some (map observable (ss ++ [s]))"),
     ("stream_body_announces",
-     "forall (content : bytes) (r : request), fst (stream_body_future true content r) = "
-     "Some (N.of_nat (length (concat (snd (stream_body_future true content r)))))"),
+     "forall (content : bytes) (r : request) (f : option N * list bytes), stream_body_future true content r = Some f -> "
+     "fst f = Some (N.of_nat (length (concat (snd f))))"),
+    ("stream_body_refuses",
+     "forall (content : bytes) (r : request), stream_body_future true content r = None <-> "
+     "exists s e, sanitize_range (header (B \"range\") r) = Ok (Some (s, e)) /\\ N.of_nat (length content) <= s"),
+    ("stream_body_content_range",
+     "forall (content : bytes) (r : request) (s e0 : N) (f : option N * list bytes), stream_body_range r = Some (s, e0) -> s < e0 -> "
+     "stream_body_future true content r = Some f -> let n := N.of_nat (length (concat (snd f))) in 0 < n /\\ "
+     "stream_body_head content r = (206, [(B \"content-range\", B \"bytes \" ++ dec s ++ B \"-\" ++ dec (s + n - 1) ++ B \"/\" ++ "
+     "dec (N.of_nat (length content)))]) /\\ concat (snd f) = firstn (N.to_nat n) (skipn (N.to_nat s) content)"),
     ("unread_body",
      "forall (Q : Type) (q_method : Q -> N) (q_content_length : Q -> option bytes) (h : hreq Q) (lim : option N), "
      "let declared := body_length (q_method (h_q h)) (q_content_length (h_q h)) in "
@@ -124,8 +132,8 @@ THEOREMS = [
      "(exists s, w_send_v0 M_GET w_te = Ok s /\\ parse_responses [M_GET] (wire s) = None) /\\ "
      "(exists s, w_send M_GET w_te = Ok s /\\ option_map (map p_body) (parse_responses [M_GET] (wire s)) = Some [B \"with te\"])"),
     ("stream_body_range_v0_refuted",
-     "exists content r, fst (stream_body_future false content r) <> "
-     "Some (N.of_nat (length (concat (snd (stream_body_future false content r)))))"),
+     "exists content r f, stream_body_future false content r = Some f /\\ "
+     "fst f <> Some (N.of_nat (length (concat (snd f))))"),
 ]
 RULE = ("(a) histories of 1-12 requests on ONE loopback connection handled by the public kvarn::handle_connection (6 quick / 1000 thorough also "
         "by a RunConfig::execute server on a loopback port taken from the kernel), each request sent after the previous response was read: "
@@ -133,7 +141,7 @@ RULE = ("(a) histories of 1-12 requests on ONE loopback connection handled by th
         "70 kB, in two 1.3 MB) / missing / '/' / unsafe path / 16 handler-backed paths (static, compressible, 204, 500, counter, echo, body "
         "readers read_to_bytes(1000) and (5), handlers that set connection: close / upgrade, a false content-length, a BODY on 204 and on 304, "
         "transfer-encoding: chunked on a whole body, a 2.9 kB head) / 8 STREAMING paths (kvarn's stream_body() on files of 33 B, 0 B, 70 kB, 1.3 MB "
-        "and on a missing file; with_future_and_len of 11 and 0 bytes; with_future WITHOUT a length) x Accept-Encoding (gzip, br, zstd, identity, "
+        "and on a missing file - ranged requests get 206 + content-range cut at the file's end, or its 416 page; with_future_and_len of 11 and 0 bytes; with_future WITHOUT a length) x Accept-Encoding (gzip, br, zstd, identity, "
         "*, q-values) x Range (satisfiable, single byte, open, at / beyond the end, reversed, other unit) x If-Modified-Since (fresh, stale, "
         "garbage) x Origin x response cache on/off x default extensions on/off x limiter off / max 4-6 (429 answers) / max 1-3 crossed up to the "
         "drop level x request bodies of 0..70000 bytes (incl. 4095/4096/4097/8192 and such that exactly one or two 4096-byte windows stay "
@@ -158,7 +166,9 @@ ASSUMPTIONS = [
     "connection_theorem / _closing_theorem). reply_ok: what handle_cache returns satisfies the http crate's invariants (status 100..999, "
     "lower-case token names, values without CR/LF, not HTTP/0.9), the range comes from sanitize_request (start < end), and for a reply with "
     "a future (stream_body, with_future): it is not a 1xx/204/304 (protocol switches such as WebSocket are outside), the length it "
-    "announces is the number of bytes its body and its future write (proved for stream_body: stream_body_announces; a handler's own "
+    "announces is the number of bytes its body and its future write (proved for stream_body: stream_body_announces, and its 206 / "
+    "content-range name those bytes: stream_body_content_range; a request it refuses gets the 416 page without a future: "
+    "stream_body_refuses; a handler's own "
     "future is trusted to keep its word), and a stream of unknown length carries no transfer-encoding / content-length of the handler's "
     "own (a handler that chunk-encodes by hand, as the reverse proxy does for a chunked upstream on HTTP/1, frames its body itself: outside "
     "the model). No longer assumed, because send now repairs it: an empty body on 1xx/204/304, no transfer-encoding beside a known length. "
@@ -182,7 +192,8 @@ TRUSTED = ["modelled: async/src/lib.rs write::response; src/lib.rs SendKind::sen
            "resolve_package, body rule, the future's writes and the HEAD rule for them), handle_connection request loop (409, limiter Send/Drop, "
            "sequential HTTP/1 handling, drain, close after a stream of unknown length); src/application.rs ResponsePipe::send_response "
            "(connection header incl. close for a head without a length), ensure_length (removes transfer-encoding) / ensure_version, "
-           "Http1Body::{read_to_bytes accounting, drain}; src/extensions.rs stream_body (range clamp, announced length, bytes sent); utils "
+           "Http1Body::{read_to_bytes accounting, drain}; src/extensions.rs stream_body (206 + content-range, end cut at the file, 416 page "
+           "when the start is outside, announced length, bytes sent); utils "
            "set_content_length, method_has_response_body, get_body_length_request, hardcoded_error_body; http::StatusCode::canonical_reason table",
            "the second stage of the run (driver/props/c08.py) hands the harness's raw bytes to the extracted parser; the harness's own "
            "lenient framing only paces the requests",
@@ -791,11 +802,15 @@ def main(tier, seed, replay):
 LEVEL_TEXT = ("proved for all response sequences / all histories of the connection model, streamed replies included: strict-client round "
               "trip, content-length = bytes written (body + what the reply's future streams), HEAD = GET's head without body however the body "
               "is produced, one response per request in order on a kept connection, a stream of unknown length is close-delimited and the "
-              "last thing on its connection (closing_history), stream_body announces what it sends, fate of an unread request body; the "
+              "last thing on its connection (closing_history), stream_body announces what it sends, names it in content-range (206) and "
+              "refuses a range that starts outside the file with a 416 page (no stream), fate of an unread request body; the "
               "model is tied to kvarn by the differential run on every check (that every request head is recognised whatever its length "
               "and segmentation is swept, not proved: C07's reader)")
 LEVEL_NOTE = ("seven defects repaired on the way (unread late request body; 429/409 answers to HEAD carried a body; a future's body written "
               "for HEAD; stream_body announcing more than the file holds; a stream of unknown length on a kept keep-alive connection; a body "
-              "after 204/304; transfer-encoding beside content-length); the pre-repair behaviour is kept as refutation witnesses")
+              "after 204/304; transfer-encoding beside content-length); the pre-repair behaviour is kept as refutation witnesses. The model "
+              "follows the merged tree: stream_body as repaired for C09 (d675f8a: 206 + content-range, 416 when the start is outside the "
+              "file - that page, having no future, is then range-sliced by SendKind::send like every error page), valid_method with the "
+              "token clause of 2dbf4ed (only the pre-drain witness looks at it)")
 TECHNIQUE = ("Coq proof (printer/strict-parser round trip for all response sequences; send-path and connection-loop invariants) + "
              "differential correspondence model vs. implementation, every received byte parsed by the extracted Coq parser")
